@@ -279,6 +279,7 @@ let res_c (start : nat) (r : nat res) : string =
   | Panic -> "PANIC"
   | Fuel -> "FUEL"
 
+let fixed_fuel : int option ref = ref None
 let run_input form hex a b =
   let bytes = hex_to_bytes hex in
   input_str := bytes_to_string bytes;
@@ -289,7 +290,7 @@ let run_input form hex a b =
     | _ -> inp_of_span bs (nat_of_int a) (nat_of_int b) in
   let e = mk_env i in
   let start = i_start i in
-  let fuel = nat_of_int (48 + 3 * List.length bytes) in
+  let fuel = match !fixed_fuel with Some f -> nat_of_int f | None -> nat_of_int (48 + 3 * List.length bytes) in
   List.iter (fun sh ->
     match sh with
     | Node (id, inh, te) ->
@@ -333,6 +334,19 @@ let run_stack (ops : sexp list) =
   | MOk s -> print_endline (stack_dbg s)
   | MPanic -> print_endline "PANIC"
 
+(* C11: certificate inference + the verified checker on the current environment; the fuel bound of the
+   theorem for the entry rule with the largest bound, with [m] bytes of input *)
+let run_wf (m : int) =
+  let e = mk_env (inp_of_str []) in
+  let idxs = List.sort compare (Hashtbl.fold (fun k _ acc -> k :: acc) rule_defs []) in
+  let rules = List.map n_of_int idxs in
+  let c = infer_cert rules e.e_rules e.e_skip in
+  if wf_cert rules e.e_rules e.e_skip c then begin
+    let b = List.fold_left (fun acc r ->
+      Stdlib.max acc (int_of_nat (fuel_bound rules e.e_rules e.e_skip c (TRule (r, SkOn)) (nat_of_int m)))) 0 rules in
+    Printf.printf "WF|1|%d\n" b
+  end else Printf.printf "WF|0|-\n"
+
 let () =
   (try
     while true do
@@ -345,6 +359,9 @@ let () =
         | L [A "shape"; A id; A "rule"; i] -> shapes := Rule (id, atom_int i) :: !shapes
         | L [A "in"; A form; A hex; a; b] -> run_input form hex (atom_int a) (atom_int b)
         | L (A "stack" :: ops) -> run_stack ops
+        | L [A "wf"; m] -> run_wf (atom_int m)
+        | L [A "fuel"; A "auto"] -> fixed_fuel := None
+        | L [A "fuel"; m] -> fixed_fuel := Some (atom_int m)
         | _ -> failwith ("bad command: " ^ line)
     done
   with End_of_file -> ());
